@@ -87,6 +87,39 @@ pub fn run(ctx: &Ctx, rep: &mut Report) {
             }
         }
     }
+    // binary-message bodies carrying registered application identifiers (the DAC / FI pairs of the
+    // type 6 and type 8 layouts, with every value of the two bits in front of them) under every
+    // type value: what an implementation knows about an application must not make it decode a type
+    // it does not support, or another kind than the six bits announce
+    for t in 0..64u8 {
+        if !ctx.mine(item) {
+            item += 1;
+            continue;
+        }
+        item += 1;
+        for dac in [0u64, 1, 200, 235, 250, 265, 316, 366, 367, 1023] {
+            for fid in 0..64u64 {
+                for two in 0..4u64 {
+                    for layout in 0..2 {
+                        let mut bits = Bits::random(if layout == 0 { 168 } else { 200 }, &mut r);
+                        bits.put(0, 6, t as u64);
+                        if layout == 0 {
+                            // type 8 layout: two bits, DAC, FI from bit 38
+                            bits.put(38, 2, two);
+                            bits.put(40, 10, dac);
+                            bits.put(50, 6, fid);
+                        } else {
+                            // type 6 layout: retransmit + spare, DAC, FI from bit 70
+                            bits.put(70, 2, two);
+                            bits.put(72, 10, dac);
+                            bits.put(82, 6, fid);
+                        }
+                        check_buf(rep, &bits.to_bytes(), "application-identifier");
+                    }
+                }
+            }
+        }
+    }
     // through full sentences: the 64 armoring characters as first payload character
     for (i, &ch) in crate::armor::ALPHABET.iter().enumerate() {
         if !ctx.mine(item) {
